@@ -37,6 +37,8 @@ MANIFEST = dict(
 VARIANTS = ["rel"]
 
 CHUNKS = {"quick": (1, 5000), "thorough": (40, 10000)}   # (chunks, programs per chunk); the chunk id perturbs the seed
+REDUCE_COUNTERS = ("reduce_systems_checked", "reduce_exact_factorisations", "reduce_rows_removed", "reduce_full_rank", "reduce_empty",
+                   "reduce_inconsistent", "reduce_exact_rowspace")
 KF_STALE = "objective-stale-trial-point"
 KF_HUGE = "feasibility-at-rounding-level"
 
@@ -313,7 +315,7 @@ def _run_text(exe, drv, text):
     if rc != 0 or not any(l.startswith("DONE ") for l in lines):
         bad.append("CRASH exit=%d %s" % (rc, out[-300:]))
     if drv:
-        rc2, mout = vlib.sh([drv], input="\n".join(l for l in lines if l.startswith(("CONST ", "SOLVE "))) + "\n", timeout=600)
+        rc2, mout = vlib.sh([drv], input="\n".join(l for l in lines if l.startswith(("CONST ", "SOLVE ", "REDUCE "))) + "\n", timeout=600)
         bad += [l for l in mout.split("\n") if l.startswith(("MISMATCH", "PROPFAIL"))]
     for l in lines:
         if l.startswith("SOLVE ") and " kind=tiny" in l:
@@ -387,6 +389,14 @@ def _replay(path):
         drv = _build_driver()
     except vlib.CheckError:
         pass
+    if d.get("reduce") and drv:
+        n, A, b = d["reduce"]
+        rc, out = vlib.sh("%s reduce %s %s %s | %s" % (exe, n, shlex.quote(A), shlex.quote(b), drv), timeout=600)
+        bad = [l for l in out.split("\n") if l.startswith(("MISMATCH", "PROPFAIL"))]
+        print("\n".join(l[:1500] for l in bad[:10]) or "replay: no failure")
+        if bad:
+            print("VIOLATION property=C04 replay=%s" % path)
+        return 1 if bad else 0
     text = d.get("program")
     if text:
         bad = _run_text(exe, drv, text)
@@ -429,8 +439,11 @@ def run(tier, replay=None):
     distinct = set()
     samples = []
     byid = {}
+    redbyid = {}
     evaluations = checked = 0
     drv_counts = collections.Counter()
+    reduce_ranks = collections.Counter()
+    reduce_kinds = collections.Counter()
     exact_budget = 3000 if tier == "quick" else 1000000
     cmd_of = lambda ch: "VERIF_SEED=%d %s %s %d %d" % (r.seed, exe, tier, ncases, ch)
     for ch in range(nchunks):
@@ -455,6 +468,9 @@ def run(tier, replay=None):
                 hists[k].update(_hist(d.get(k, "")))
             for k in worst:
                 worst[k] = max(worst[k], float(d.get(k, 0)))
+        for l in lines:
+            if l.startswith("REDUCE "):
+                reduce_kinds[l.split(" ", 3)[2].split("=", 1)[1].split(":")[0].split("+")[0]] += 1
         for l in solves:
             st = l.split(" = ", 1)[1].split(" ", 1)[0]
             status_hist[st] += 1
@@ -490,7 +506,7 @@ def run(tier, replay=None):
                                     no_input=True)
         # correspondence with the extracted model
         if drv:
-            feed = "\n".join(l for l in lines if l.startswith(("CONST ", "SOLVE "))) + "\n"
+            feed = "\n".join(l for l in lines if l.startswith(("CONST ", "SOLVE ", "REDUCE "))) + "\n"
             rc2, mout = vlib.sh([drv], input=feed, timeout=3000)
             del feed
             got = 0
@@ -503,8 +519,10 @@ def run(tier, replay=None):
                 elif l.startswith("MODEL-DONE"):
                     dd = _kv(l)
                     got = int(dd.get("checked", 0))
-                    for k in ("compared", "decisions", "ambiguous", "kkt_verified", "stale_states", "converged_with_negative_u"):
+                    for k in ("compared", "decisions", "ambiguous", "kkt_verified", "stale_states", "converged_with_negative_u",
+                              "returned_states_u_checked") + REDUCE_COUNTERS:
                         drv_counts[k] += int(dd.get(k, 0))
+                    reduce_ranks.update(_hist(dd.get("reduce_ranks", "")))
             checked += got
             if rc2 != 0 or (not got and solves):
                 r.violation("driver", {"kind": "model driver failed", "out": mout[-2000:], "replay_cmd": cmd_of(ch) + " | " + drv},
@@ -515,6 +533,9 @@ def run(tier, replay=None):
                     i = l.split(" ", 2)[1]
                     if i in ids:
                         byid.setdefault((ch, i), l)
+                for l in lines:
+                    if l.startswith("REDUCE ") and l.split(" ", 2)[1] in ids:
+                        redbyid.setdefault((ch, l.split(" ", 2)[1]), l)
             mism += [(ch, l) for l in cm]
         del lines, solves
 
@@ -542,8 +563,32 @@ def run(tier, replay=None):
         r.violation("exact-%d" % i, {"kind": "small integer program decided exactly: " + failure, "program": d["text"],
                                      "returned": {"status": d["status"], "x": d["x"], "fx": d["fx"], "u": d["u"], "v": d["v"]},
                                      "replay_cmd": "%s replay %s" % (exe, shlex.quote(d["text"]))})
-    prop = [(ch, l) for ch, l in mism if l.startswith("PROPFAIL")]
+    prop = [(ch, l) for ch, l in mism if l.startswith("PROPFAIL") and not l.startswith("PROPFAIL reduce-")]
+    rprop = [(ch, l) for ch, l in mism if l.startswith("PROPFAIL reduce-")]
     corr = [(ch, l) for ch, l in mism if l.startswith("MISMATCH")]
+
+    def reduce_payload(ch, l):
+        m = re.search(r"id=(\S+)", l)
+        case = redbyid.get((ch, m.group(1)), "") if m else ""
+        out = {"detail": l[:1500], "case": case[:4000]}
+        if case:
+            rp = case.split(" | ")
+            hdr = dict(t.split("=", 1) for t in rp[0].split()[2:] if "=" in t)
+            out.update({"A": rp[1], "b": rp[2], "cols": hdr.get("n"), "eigen_rank": rp[7], "reduced_A": rp[9], "reduced_b": rp[10],
+                        "reduce": [hdr.get("n"), rp[1], rp[2]],
+                        "replay_cmd": "%s reduce %s %s %s | %s" % (exe, hdr.get("n"), shlex.quote(rp[1]), shlex.quote(rp[2]), drv)})
+        return out
+    seenr = set()
+    for ch, l in sorted(rprop, key=lambda t: len(redbyid.get((t[0], (re.search(r"id=(\S+)", t[1]) or [None, ""])[1]), "") or "x" * 9999)):
+        what = l.split()[1]
+        if what in seenr:
+            continue
+        seenr.add(what)
+        pl = reduce_payload(ch, l)
+        pl["kind"] = ("program::reduce does not preserve the solution set of the equality system A x = b (conclusion of "
+                      "C04_reduce_same_solutions / C04_reduce_inconsistent_preserved evaluated on the implementation by exact elimination "
+                      "over Q): hexadecimal doubles, rows separated by `;`")
+        r.violation("reduce-%s" % what, pl)
     for i, (ch, l) in enumerate(prop[:2]):
         case = byid.get((ch, re.search(r"id=(\S+)", l).group(1)), "")
         r.violation("prop-%d" % i, {"kind": "feasibility clause violated (exact arithmetic, driver oracle)", "detail": l,
@@ -551,15 +596,24 @@ def run(tier, replay=None):
     seenk = set()
     for ch, l in corr:
         what = re.sub(r"\[\d+\]", "", l.split()[1])
-        if what in seenk or len(seenk) >= 3:
+        if what in seenk or len(seenk) >= 4:
             continue
         seenk.add(what)
+        if what.startswith("reduce-"):
+            pl = reduce_payload(ch, l)
+            pl["kind"] = "model/implementation disagreement in program::reduce"
+            pl["meaning"] = {"reduce-factorisation": "the factors printed next to program::reduce (Eigen fullPivLu of [A|b]^T, same call) are not a "
+                                                     "full-pivoting LU factorisation: the hypothesis of the reduce theorems fails on this input",
+                             }.get(what, "the library's reduced [A'|b'] is not what the proved model assembles from (P, L, U, rank) of Eigen's "
+                                         "fullPivLu of [A|b]^T (U^T.block(0,0,rank,n) * L^T * P)")
+            r.violation("corr-%s" % what, pl, no_input=not (impl_fail or exact_fail or prop or rprop))
+            continue
         m = re.search(r"id=(\S+)", l)
         case = byid.get((ch, m.group(1)), "") if m else ""
         r.violation("corr-%s" % what, {"kind": "model/implementation disagreement", "detail": l, "program": case.split(" = ")[0],
                                        "case": case[:4000],
                                        "meaning": "the returned state is not what the proved model of update()/feasible()/done() gives on this input"},
-                    no_input=not (impl_fail or exact_fail or prop))
+                    no_input=not (impl_fail or exact_fail or prop or rprop))
     for ch, l in genbad[:1]:
         r.violation("generator", {"kind": "generator defect: constructed optimum is not an exact KKT point (defect of the check)",
                                   "detail": l, "case": byid.get((ch, re.search(r"id=(\S+)", l).group(1)), "")[:4000]}, no_input=True)
@@ -600,10 +654,15 @@ def run(tier, replay=None):
         cov[k + "_histogram"] = dict(hists[k])
     cov.update(worst)
     cov["model_comparisons"] = dict(drv_counts)
+    for k in REDUCE_COUNTERS:
+        cov[k] = drv_counts.get(k, 0)
+    cov["reduce_rank_histogram"] = dict(reduce_ranks)
+    cov["reduce_kind_histogram"] = dict(reduce_kinds)
+    cov["returned_states_u_checked"] = drv_counts.get("returned_states_u_checked", 0)
     cov["exact_decisions"] = dict(exact_verdicts)
     cov["exact_oracle_selftest"] = dict(selftest)
     cov["mismatches"] = len(corr)
-    cov["impl_direct_failures"] = len(impl_fail) + len(exact_fail) + len(prop)
+    cov["impl_direct_failures"] = len(impl_fail) + len(exact_fail) + len(prop) + len(rprop)
     cov["defect_candidates"] = candidates
     cov["samples"] = samples
     cov["unproved_clauses_searched"] = [
